@@ -123,6 +123,132 @@ def run(cx):
             some = discr_variants(m, gd) == {"Some"}
     cx.ob("C17.R3", "action:refused", some and any(k == "ERR_NEW" for _, k in rd.exit_defs()), "an action on a missing process is refused with an error", rd.loc())
     cx.floor("C17.R3", 3)
+    cx.rule("C17.R4", "K1", "no row of a removed process is written again: task rows only behind a successful lookup of the process row, process rows only by the launch")
+    r4_no_late_rows(cx)
+
+
+def on_ok_of(m, f, pa, blk, pred):
+    """is `blk` reached only through the Ok/Continue edge of a call satisfying pred(Call)?"""
+    for g in guards_of(m, f, blk, mode="alias"):
+        r = g.root
+        if r[0] != "discr" or r[1][0] != "call":
+            continue
+        inner = r[1]
+        c = Call(f, inner[2])
+        vs = discr_variants(m, g)
+        if T.TRY_BRANCH.search(inner[1]) and vs == {"Continue"} and c.args:
+            src = pa.root(f, c.args[0])
+            if src[0] == "call" and pred(Call(f, src[2])):
+                return True
+        elif vs == {"Ok"} and pred(c):
+            return True
+    return False
+
+
+def r4_no_late_rows(cx):
+    """a row of a removed process cannot come back: task rows are written only behind a successful lookup of the
+    owning process row, process rows are created only by the launch"""
+    m = cx.m
+    pa = Prov(m, "alias")
+
+    def coll_of(f, c):
+        r = pa.root(f, c.args[0])
+        n = 0
+        while r[0] == "call" and n < 4:
+            mm = re.search(r"Store::(tasks|procs|messages|events|models|packages)$", r[1])
+            if mm:
+                return mm.group(1)
+            cc = Call(f, r[2])
+            if not cc.args:
+                return None
+            r = pa.root(f, cc.args[0])
+            n += 1
+        return None
+
+    creators = {"tasks": [], "procs": []}
+    for f in m.fns.values():
+        if not f.q.startswith("acts::"):
+            continue
+        for c in f.calls():
+            if c.kind == "virtual" and c.q.endswith("DbCollection::create"):
+                k = coll_of(f, c)
+                if k in creators:
+                    creators[k].append((f, c))
+    tq = sorted({f.q for f, _ in creators["tasks"]})
+    pq = sorted({f.q for f, _ in creators["procs"]})
+    cx.ob("C17.R4", "proc-rows:one-creator", pq == [STORE + "upsert_proc"], "process rows are created in one place, Store::upsert_proc (found %s)" % [short_name(q) for q in pq], creators["procs"][0][1].loc if creators["procs"] else None)
+    if not creators["tasks"]:
+        raise Anchor("no creation of task rows found")
+
+    def is_find_in(f):
+        def is_find(x):
+            if not (x.kind == "virtual" and x.q.endswith("DbCollection::find") and coll_of(f, x) == "procs"):
+                return False
+            k = pa.root(f, x.args[1])
+            while k[0] == "call" and (Call(f, k[2]).callee.get("decl") or "") == "std::ops::Deref::deref" and not k[3]:
+                k = pa.root(f, Call(f, k[2]).args[0])
+            # the key is the pid of the task being written
+            return tuple(y for y in (k[3] if k[0] in ("param", "call", "local") else ()) if y != "*")[-1:] == ("pid",) or (k[0] == "param" and k[2] == "pid")
+        return is_find
+
+    def guarded(f, c, depth=0, trail=()):
+        """every way to reach call c of f passes the Ok edge of `procs().find(<pid>)`; returns the unguarded entry or None"""
+        if on_ok_of(m, f, pa, c.b, is_find_in(f)):
+            return None
+        if depth >= 4:
+            return trail + (short_name(f.q),)
+        sites = [(f2, c2) for f2 in m.fns.values() for c2 in f2.calls() if c2.q == f.q]
+        if not sites:
+            return trail + (short_name(f.q),)
+        for f2, c2 in sites:
+            r = guarded(f2, c2, depth + 1, trail + (short_name(f.q),))
+            if r is not None:
+                return r
+        return None
+
+    for f, c in creators["tasks"]:
+        bad = guarded(f, c)
+        cx.ob("C17.R4", "task-row:%s:behind-proc-row" % short_name(f.q), bad is None,
+              "the task row created in `%s` is reached only after `procs().find(<pid of the task>)` succeeded: once the process is removed a late task event cannot bring a row back%s" % (short_name(f.q), "" if bad is None else " - unguarded through " + " <- ".join(bad)), c.loc)
+    # process rows: upsert_proc <- push_proc_pri <- push_proc <- Process::start only
+    pv = Prov(m, "value")
+    chain = [STORE + "upsert_proc"]
+    seen = set(chain)
+    tops = set()
+    while chain:
+        q = chain.pop()
+        for f in m.fns.values():
+            for c in f.calls():
+                if c.q != q:
+                    continue
+                # the call may sit behind a `save` flag of the caller: then only callers passing true count
+                flag = None
+                for g in guards_of(m, f, c.b, mode="value"):
+                    if g.root[0] == "param" and not g.root[3] and g.truth is True:
+                        flag = g.root[1]
+                if not f.q.startswith("acts::cache::"):
+                    tops.add(f.q)
+                    continue
+                if flag is None:
+                    if f.q not in seen:
+                        seen.add(f.q)
+                        chain.append(f.q)
+                    continue
+                for f2 in m.fns.values():
+                    for c2 in f2.calls():
+                        if c2.q != f.q:
+                            continue
+                        a = pv.root(f2, c2.args[flag - 1])
+                        if a[0] == "const" and a[1].get("int") == "0":
+                            continue
+                        if f2.q.startswith("acts::cache::"):
+                            if f2.q not in seen:
+                                seen.add(f2.q)
+                                chain.append(f2.q)
+                        else:
+                            tops.add(f2.q)
+    cx.ob("C17.R4", "proc-row:launch-only", {short_name(t) for t in tops} == {"Process::start"}, "a process row is written only by the launch (`Process::start` -> Cache::push_proc): nothing re-creates the row of a finished process (entry points found: %s)" % sorted(short_name(t) for t in tops), None)
+    cx.floor("C17.R4", 3)
 
 
 def _is_param(pv, f, r, name):
